@@ -41,7 +41,7 @@ def nesting_grammar(ws, cm, depth):
 
 def compiled_corpus(tier):
     """grammars compiled through both derives (fixed, so that cargo's cache stays warm)"""
-    texts = list(grammar.HAND)
+    texts = list(grammar.HAND) + list(grammar.TARGETED)
     combos = [(True, False), (True, True)] if tier == "quick" else [(False, False), (True, False), (False, True), (True, True)]
     for ws, cm in combos:
         texts.append(nesting_grammar(ws, cm, 2))
